@@ -224,6 +224,6 @@ def signature(e):
             out.append(("spy_ok", c))
     if e["kind"] == "deliver" and e["kws"]:
         c = _c(e)
-        c["kws"][0]["where"] = "nowhere"
+        c["kws"][0]["where"] = []
         out.append(("where", c))
     return out
